@@ -361,65 +361,76 @@ def resultConst (constant : Option Bool) (h : Heap) (vars : List Nat) : Bool :=
   | some c => c
   | none => !(vars.any fun v => !(h.t v).const)
 
+/-- the forward pass of `Tensor._op`: the output array and, for a view, the parent variable -/
+def forwardOp (h : Heap) (kind : Kind) (vars : List Nat) : Except Err (Heap × Arr × Option Nat) :=
+  match kind with
+  | .view f =>
+    let p := vars.getD 0 0
+    let pa := (h.t p).data
+    match f.apply pa.d with
+    | .error e => .error e
+    | .ok (d', true) => .ok (h, ⟨pa.buf, d'⟩, some p)
+    | .ok (d', false) =>
+      -- NumPy copied: a scalar picked by an all-integer index, or a reshape of an unmergeable layout
+      let vals := match f with
+        | .getitem _ => h.read ⟨pa.buf, d'⟩
+        | _ => h.read pa
+      let (h, a) := h.newArr (d'.shape, vals)
+      .ok (h, a, none)
+  | .applyMask _ =>
+    -- `ApplyMask.__call__` hands back the very array of its first argument (not flagged a view op)
+    .ok (h, (h.t (vars.getD 0 0)).data, none)
+  | k =>
+    match evalKind k (vars.map fun i => h.val (h.t i).data) with
+    | .error e => .error e
+    | .ok v => let (h, a) := h.newArr v; .ok (h, a, none)
+
+/-- create the result tensor object and, for a view, register it among its parent's view children -/
+def attachResult (h : Heap) (x : Tens) (parent : Option Nat) : Heap × Nat :=
+  let (h, o) := h.fresh
+  let h := h.setT o x
+  let h := match parent with
+    | some p => if x.base.isSome then h.modT p fun t => { t with vchildren := t.vchildren ++ [o] } else h
+    | none => h
+  (h, o)
+
+/-- everything `Tensor._op` does after the forward pass succeeded: view detection and base
+assignment, stale-base fix-up and gradient nulling of the inputs, constant inference, recording of
+the op and of the consumer relation, creation of the result tensor -/
+def recordOp (h : Heap) (kind : Kind) (vars userTensors : List Nat) (c : Bool)
+    (constant : Option Bool) (whereMask : Option (Shape × List Bool)) (outArr : Arr)
+    (parent : Option Nat) : Heap × Nat :=
+  -- view detection: base assignment (literal operands cannot share memory here)
+  let (h, base) : Heap × Option Nat :=
+    match parent with
+    | none => (h, none)
+    | some p =>
+      let pt := h.t p
+      let h := if pt.base.isSome ∧ pt.creator.isNone then h.modT p ({ · with base := none }) else h
+      let pt := h.t p
+      (h, some (pt.base.getD p))
+  -- stale-base fix-up and grad nulling for tensor inputs
+  let h := userTensors.foldl (fun h v =>
+    let tv := h.t v
+    let h := if tv.base.isSome ∧ tv.creator.isNone then h.modT v ({ · with base := none }) else h
+    if base.isNone then h.modT v ({ · with grad := none, viewGrad := none }) else h) h
+  let (h, f) := h.fresh
+  let h := h.setOp f { kind := kind, vars := vars, whereMask := whereMask,
+                       forceConst := if base.isSome then constant else none }
+  let h := vars.foldl (fun h v => h.modT v fun t => { t with ops := f :: t.ops }) h
+  attachResult h { data := outArr, const := c, creator := some f, base := base } parent
+
 /-- `Tensor._op(Op, *inputs, constant=…)` for a non-`out=` call with graph tracking on.
 Returns the new heap and the id of the result tensor. -/
 def opStep (h : Heap) (kind : Kind) (inputs : List Operand) (constant : Option Bool := none)
     (whereMask : Option (Shape × List Bool) := none) : Except Err (Heap × Nat) :=
-  let (h, vars) := wrapOperands h inputs
-  let hw := h                                            -- the heap in which the inputs' flags are read
+  let (hw, vars) := wrapOperands h inputs
   let userTensors := inputs.filterMap fun | .t i => some i | _ => none
-  -- forward
-  let fwd : Except Err (Heap × Arr × Option Nat) :=      -- (heap, out array, parent var of a view)
-    match kind with
-    | .view f =>
-      let p := vars.getD 0 0
-      let pa := (h.t p).data
-      match f.apply pa.d with
-      | .error e => .error e
-      | .ok (d', true) => .ok (h, ⟨pa.buf, d'⟩, some p)
-      | .ok (d', false) =>
-        -- NumPy copied: a scalar picked by an all-integer index, or a reshape of an unmergeable layout
-        let vals := match f with
-          | .getitem _ => h.read ⟨pa.buf, d'⟩
-          | _ => h.read pa
-        let (h, a) := h.newArr (d'.shape, vals)
-        .ok (h, a, none)
-    | .applyMask _ =>
-      -- `ApplyMask.__call__` hands back the very array of its first argument (not flagged a view op)
-      .ok (h, (h.t (vars.getD 0 0)).data, none)
-    | k =>
-      match evalKind k (vars.map fun i => h.val (h.t i).data) with
-      | .error e => .error e
-      | .ok v => let (h, a) := h.newArr v; .ok (h, a, none)
-  match fwd with
+  match forwardOp hw kind vars with
   | .error e => .error e
   | .ok (h, outArr, parent) =>
-    -- view detection: base assignment (literal operands cannot share memory here)
-    let (h, base) : Heap × Option Nat :=
-      match parent with
-      | none => (h, none)
-      | some p =>
-        let pt := h.t p
-        let h := if pt.base.isSome ∧ pt.creator.isNone then h.modT p ({ · with base := none }) else h
-        let pt := h.t p
-        (h, some (pt.base.getD p))
-    -- stale-base fix-up and grad nulling for tensor inputs
-    let h := userTensors.foldl (fun h v =>
-      let tv := h.t v
-      let h := if tv.base.isSome ∧ tv.creator.isNone then h.modT v ({ · with base := none }) else h
-      if base.isNone then h.modT v ({ · with grad := none, viewGrad := none }) else h) h
     -- constant inference (float data: `constant=None` means non-constant unless every input is constant)
-    let c := resultConst constant hw vars
-    let (h, f) := h.fresh
-    let h := h.setOp f { kind := kind, vars := vars, whereMask := whereMask,
-                         forceConst := if base.isSome then constant else none }
-    let h := vars.foldl (fun h v => h.modT v fun t => { t with ops := f :: t.ops }) h
-    let (h, o) := h.fresh
-    let h := h.setT o { data := outArr, const := c, creator := some f, base := base }
-    let h := match parent with
-      | some p => if base.isSome then h.modT p fun t => { t with vchildren := t.vchildren ++ [o] } else h
-      | none => h
-    .ok (h, o)
+    .ok (recordOp h kind vars userTensors (resultConst constant hw vars) constant whereMask outArr parent)
 
 /-! ## `collect_all_tensors_and_clear_grads` -/
 
